@@ -282,7 +282,9 @@ h_HXPread(void)
        3 = exactly at the end; 4 = beyond the end; 0 = everything */
     H4V_ASSUME(g_posn0 >= 0 && g_len0 >= 0);
 #if H4V_CASE == 1
-    H4V_ASSUME(g_posn0 < g_len0 && (int64_t)g_posn0 + length <= INT32_MAX);
+    H4V_ASSUME(g_posn0 < g_len0 && (int64_t)g_posn0 + length <= INT32_MAX && g_was_open);
+#elif H4V_CASE == 5 /* as 1, but the external file has to be (re)opened first */
+    H4V_ASSUME(g_posn0 < g_len0 && (int64_t)g_posn0 + length <= INT32_MAX && !g_was_open);
 #elif H4V_CASE == 2
     H4V_ASSUME(g_posn0 < g_len0 && (int64_t)g_posn0 + length > INT32_MAX);
 #elif H4V_CASE == 3
@@ -297,9 +299,11 @@ h_HXPread(void)
     g_buf = malloc((size_t)g_cap);
     H4V_ASSUME(g_buf != NULL);
     int32 r = HXPread(g_arec, length, g_buf);
-#if H4V_CASE == 1
+#if H4V_CASE == 1 || H4V_CASE == 5
     H4V_COVER(r > 0 && r < length, "HXPread clamped");
     H4V_COVER(r > 0 && length == 0, "HXPread to the end");
+#endif
+#if H4V_CASE == 5
     H4V_COVER(r > 0 && g_open_n == 1 && g_close_n == 1, "HXPread reopened after HXsetdir");
 #endif
     H4V_COVER(r == FAIL && g_io_failed, "HXPread fault");
@@ -321,7 +325,10 @@ h_HXPwrite(void)
 #define XNOOVF ((int64_t)g_posn0 + length <= INT32_MAX && (int64_t)g_xinfo->extern_offset + g_posn0 + length <= INT32_MAX)
 #if H4V_CASE == 1
     g_io_may_fail = g_open_may_fail = g_htp_may_fail = g_hp_may_fail = 0;
-    H4V_ASSUME(g_s_writable[0] && XNOOVF);
+    H4V_ASSUME(g_s_writable[0] && XNOOVF && g_was_open);
+#elif H4V_CASE == 5 /* as 1, but the external file has to be (re)opened first */
+    g_io_may_fail = g_open_may_fail = g_htp_may_fail = g_hp_may_fail = 0;
+    H4V_ASSUME(XNOOVF && !g_was_open);
 #elif H4V_CASE == 2
     g_htp_may_fail = g_hp_may_fail = 0;
     H4V_ASSUME(XNOOVF);
@@ -338,6 +345,10 @@ h_HXPwrite(void)
     H4V_ASSUME(g_cap <= 4096);
     g_buf = malloc((size_t)g_cap);
     H4V_ASSUME(g_buf != NULL);
+#ifndef H4V_CBMC
+    for (int32 bi = 0; bi < g_cap; bi++)
+        g_buf[bi] = (uint8)bi;
+#endif
     int32 r = HXPwrite(g_arec, length, g_buf);
 #if H4V_CASE != 4
     H4V_COVER(r > 0 && g_xinfo->length > g_len0, "HXPwrite grew the element");
